@@ -384,3 +384,34 @@ class _(Contract):
         L, g = ex.L, a.self
         C = _closure(ex, lambda p, q: L.And(g.D(p, q), L.Not(a.X.has(q))), "rtcDx")
         return VSet(lambda u: L.exists(1, lambda s: L.And(a.Y.has(s), C(u, s))))
+
+
+@contract(f"{G}.intervene", props=["C14"])
+class _(Contract):
+    """The image of the graph under v -> v.intervene(S), with the edges into intervened nodes dropped: a directed edge survives
+    unless its head is intervened on (+head or -head in S), a bidirected edge unless either end is."""
+    params = {"self": "graph", "variables": "nodeset"}
+    allowed_raises = ("ValueError", "TypeError")
+    finite_ok = False      # creates nodes outside any fixed finite universe
+
+    def raises(self, ex, a):
+        L, g, S = ex.L, a.self, a.variables
+        nonempty_graph = L.exists(1, lambda v: g.N(v))
+        bad_members = L.exists(1, lambda i: L.And(S.has(i), L.Not(L.is_intervention(i))))
+        return {"TypeError": L.And(nonempty_graph, bad_members),
+                "ValueError": L.And(nonempty_graph, L.Not(bad_members), L.Not(L.exists(1, lambda i: S.has(i))))}
+
+    def pre(self, ex, a):
+        L, g = ex.L, a.self
+        return [("plain-nodes", L.forall(1, lambda v: L.Implies(g.N(v), L.And(L.Not(L.is_cf(v)), L.Not(L.is_intervention(v))))))]
+
+    def spec(self, ex, a):
+        from y0vc import exprs
+        L, g, S = ex.L, a.self, a.variables
+        at = L.intervene_axioms()
+        A = exprs.theory(ex).set_to_array(S)
+        f = lambda v: at(A, v)
+        free = lambda v: L.And(L.Not(S.has(L.iv_plus(v))), L.Not(S.has(L.iv_minus(v))))
+        return mk_graph(lambda x: L.exists(1, lambda v: L.And(g.N(v), x == f(v))),
+                        lambda p, q: L.exists(2, lambda u, v: L.And(g.D(u, v), free(v), p == f(u), q == f(v))),
+                        lambda p, q: L.exists(2, lambda u, v: L.And(g.U(u, v), free(u), free(v), p == f(u), q == f(v))))
